@@ -10,22 +10,30 @@ Modes for the rows:
 and optionally `wide`: k extra fields w0..wk-1 appended (distinct names; cells are small ints), so that the header passes
 32 / 100 fields.
 """
+import hashlib
+
 from hypothesis import strategies as st
 
 SIZES = [65, 130, 257, 1001, 1025, 2049]
 WIDTHS = [0, 0, 0, 30, 70, 130]
 
 
-@st.composite
-def blowup(draw, odds=10, sizes=None, wide=True, tier="quick"):
-    """None (usually) or a blow-up spec.  The thorough tier also goes past 4096 and 10000 rows."""
-    if draw(st.integers(0, odds - 1)) != 0:
+def derive(case, odds=10, sizes=None, wide=True, tier="quick"):
+    """None (usually) or a blow-up spec, read off a hash of the generated case.
+
+    Hypothesis's small choices late in a long composite draw are strongly skewed towards their first alternative (measured:
+    'cycle' 4:1 over 'uniform-first', the large sizes rare; a single wide integer is no better - a handful of values make
+    up most draws).  The case as a whole varies, so the spec is derived from a digest of it: uniform over the alternatives,
+    still a pure function of the generated case, and stored in the case so that a replay file says what was run."""
+    h = int.from_bytes(hashlib.blake2b(repr(case).encode("utf-8", "backslashreplace"), digest_size=8).digest(), "big")
+    if h % odds != 0:
         return None
+    h //= odds
     sizes = list(sizes or SIZES)
     if tier == "thorough" and max(sizes) >= 1000:
         sizes = sizes + [4097, 10001]
-    return {"rows": draw(st.sampled_from(sizes)), "mode": draw(st.sampled_from(["cycle", "uniform-first"])),
-            "wide": draw(st.sampled_from(WIDTHS)) if wide else 0}
+    return {"rows": sizes[h % len(sizes)], "mode": ("uniform-first", "cycle")[(h >> 8) % 2],
+            "wide": WIDTHS[(h >> 16) % len(WIDTHS)] if wide else 0}
 
 
 def apply(tbl, b):
